@@ -182,12 +182,14 @@ PROPS["C18"] = {
             {"name": "flusher", "run": "^TestAlignedFlusher$", "checks": 2400, "shards": 8},
             {"name": "jumps", "run": "^TestAlignedFlusherJumps$", "checks": 2400, "shards": 8},
             {"name": "realclock", "run": "^TestAlignedFlusherRealClock$", "checks": 160, "shards": 8},
+            {"name": "binary", "run": "^TestBinaryAlignedFlush$", "checks": 32, "shards": 16, "binary": True, "shrinktime": "1s"},
         ],
         "thorough": [
             {"name": "ticker", "run": "^TestAlignedTickerValues$", "checks": 160000, "shards": 8, "timeout": 1700},
             {"name": "flusher", "run": "^TestAlignedFlusher$", "checks": 160000, "shards": 8, "timeout": 1700},
             {"name": "jumps", "run": "^TestAlignedFlusherJumps$", "checks": 160000, "shards": 8, "timeout": 1700},
             {"name": "realclock", "run": "^TestAlignedFlusherRealClock$", "checks": 8000, "shards": 16, "timeout": 1700},
+            {"name": "binary", "run": "^TestBinaryAlignedFlush$", "checks": 640, "shards": 16, "binary": True, "shrinktime": "1s", "timeout": 1700},
         ],
     },
     "assumptions": [
@@ -255,8 +257,10 @@ PROPS["C11"] = {
 PROPS["C12"] = {
     "pkg": "c12", "level": "exploration",
     "jobs": {
-        "quick": [{"name": "cache", "run": "^TestInstanceCacheHistories$", "checks": 400, "shards": 16, "steps": 14}],
-        "thorough": [{"name": "cache", "run": "^TestInstanceCacheHistories$", "checks": 24000, "shards": 16, "steps": 25, "timeout": 1700}],
+        "quick": [{"name": "cache", "run": "^TestInstanceCacheHistories$", "checks": 400, "shards": 16, "steps": 14},
+                  {"name": "slowconsumer", "run": "^TestSlowConsumer$", "checks": 480, "shards": 8}],
+        "thorough": [{"name": "cache", "run": "^TestInstanceCacheHistories$", "checks": 24000, "shards": 16, "steps": 25, "timeout": 1700},
+                     {"name": "slowconsumer", "run": "^TestSlowConsumer$", "checks": 32000, "shards": 16, "timeout": 1700}],
     },
     "assumptions": [
         "the implementation mixes time.Now() (entry expiry, last access) with the refresh ticker's time; tick values are real now + k*10 min while TTL (15 min), negative TTL (5 min) and idle period (25 min) are odd multiples of 5 min, so every comparison is decided with >= 5 min of margin against seconds of real drift; boundaries at equality and per-entry differences in idle age are therefore not explored",
